@@ -37,7 +37,7 @@ def cases(tier):
                          G.syntax_program(depth=2, max_statements=5), G.corpus_strategy(stdlib=False), G.syntax_program(depth=1, max_statements=8),
                          G.syntax_program(depth=1, max_statements=1), G.expr(2).map(lambda e: e + '\n'), G.valid_commented_program())
     return st.fixed_dictionaries({'code': programs, 'derivation': st.fixed_dictionaries({'frag': st.integers(0, 60), 'steps': _steps})},
-                                 optional={'history': _history})
+                                 optional={'history': _history, 'via': st.sampled_from(['main', 'section', 'section-verified'])})
 
 
 _flat_stmt = st.one_of(
@@ -100,6 +100,33 @@ def judge(case):
     history = case.get('history') or []
     if history:
         classes.append('with-history')
+    via = case.get('via')
+    if via is not None and '#####' in code:
+        via = None
+    if via is not None:
+        # the program is not handed to CAIT: it is the submission (verified by the Source tool), or the current section of one
+        from pedal.core.commands import contextualize_report
+        from pedal.source import verify, separate_into_sections, next_section
+        classes.append('via=' + via)
+        try:
+            if via == 'main':
+                contextualize_report(code)
+                verify()
+            else:
+                contextualize_report('first = 1\nprint(first, "prologue")\n##### Part 1\n' + code)
+                verify()
+                separate_into_sections()
+                verify()
+                next_section()
+                if via == 'section-verified':
+                    verify()
+            if MAIN_REPORT.submission.main_code.strip('\n') != code.strip('\n') or any(f.category == 'syntax' for f in MAIN_REPORT.feedback):
+                via = None        # (the text is not what this case means to present, e.g. a form feed that splits differently)
+        except Exception:
+            via = None
+        if via is None:
+            MAIN_REPORT.full_clear()
+            classes[-1] = 'via-not-applicable'
     for k, stage in enumerate(stages):
         pattern = stage['pattern']
         if history:
@@ -108,7 +135,10 @@ def judge(case):
             except Exception:
                 pass
         try:
-            matches = find_matches(pattern, code)
+            if via is None:
+                matches = find_matches(pattern, code)
+            else:
+                matches = find_matches(pattern)      # the program is the report's current main code
         except BaseException as e:
             import traceback
             tb = traceback.extract_tb(e.__traceback__)[-1]
